@@ -281,7 +281,7 @@ def py_timely_and_spec(frags, evs):
 def receiver(run):
     M, r = run.model, run.rng
     cases = []
-    for k in range(20000 if run.thorough() else 2500):
+    for k in range(40000 if run.thorough() else 2500):
         cases.append(gen_feed_case(r, timely=(k % 3 != 0)))
     impl = [impl_feed(*c) for c in cases]
     mod = M.call_many("frag_feed", [[c[0], c[1], c[2]] for c in cases])
@@ -439,7 +439,7 @@ def network(run):
     net_run(run, 1500, {"tick": 300}, [2500], "delay-4s", frames=330, hold=(2, 4 * T, 190))
     scheds = [{"tick": 300}, {"tick": 300, "reorder": 0.5, "max_delay": T // 4}, {"tick": 300, "dup": 0.4, "max_delay": T // 4},
               {"tick": 300, "reorder": 0.4, "dup": 0.3, "max_delay": T // 3}, {"tick": 300, "loss": 0.15, "reorder": 0.3, "dup": 0.2, "max_delay": T // 4}]
-    reps = 15 if run.thorough() else 4
+    reps = 40 if run.thorough() else 4
     for rep in range(reps):
         for cfg in scheds:
             mtu = r.choice([512, 600, 1096, 1500, r.randrange(512, 1501)])
